@@ -2379,7 +2379,8 @@ def convert_mean_to_depthwise_conv(op, arch, nng):
             )
 
             weights_1D = np.ones(np.prod(weight_shape))
-            weight_tensor.equivalence_id = create_equivalence_id(tuple(weights_1D))
+            # the id identifies values and shape: all-ones kernels of equal size but different shape are encoded differently
+            weight_tensor.equivalence_id = create_equivalence_id((tuple(weight_shape), tuple(weights_1D)))
             weight_tensor.value_id = weight_tensor.equivalence_id
 
             intermediate_op.set_input_tensor(weight_tensor, 1)
